@@ -27,6 +27,8 @@ PARTS = {
     "C29": ["fuzz", "prog"],
 }
 
+# extra recorder parts of the thorough tier (C29: the boundary-operand drivers of every instruction family are also run for crashes)
+PARTS_THOROUGH = {"C29": ["alu", "flow", "mem", "calls", "assets"]}
 PROPERTIES = ["C21", "C24", "C25", "C26", "C27", "C28", "C29", "C31", "C32", "C34"]
 
 _COMMON_NOTE = ("Trusted base: the harness only snapshots registers/memory/receipts around each instruction and logs differences; "
@@ -326,7 +328,8 @@ def run(pid, tier):
             vm_crypto.leg(chk, tier, tag=pid + "_crypto", selftest=False)
         # ---- Leg T ----
         tr = os.path.join(vlib.WORK, "%s_trace.ndjson" % pid)
-        vlib.vh(["record", "vm", "--tier", tier, "--part", ",".join(PARTS[pid]), "-o", tr], bin=BIN, timeout=3000)
+        parts = PARTS[pid] + (PARTS_THOROUGH.get(pid, []) if thorough else [])
+        vlib.vh(["record", "vm", "--tier", tier, "--part", ",".join(parts), "-o", tr], bin=BIN, timeout=3000)
         events = vlib.read_ndjson(tr)
         bad = [e for e in events if e.get("ev") in ("HostPanic", "Runaway")]
         nev, nseg, st = tc.validate(chk, "vm", SPEC_TR, tr, tag=pid, timeout=3000, parallel=6 if thorough else 5)
